@@ -79,6 +79,8 @@ SPEC = Spec(
         "model (decodeV/encodeV) is tied on these schemas by exact differential in the load harness (written leaves and untouched defaults of every instance)",
     ],
     assumptions=[
+        "the rules INSIDE one built-in Validate() (a conjunction; most return on the first failure) are tied by the combination differential c13RuleCombos (49 hand-listed rules of ~15 "
+        "Validate methods: every rule alone, every pair, every rule with every valid co-setting of its component; ~1700 loads per run), not by a theorem: C13_validate_complete is about the walker",
         "leaf values are ids in the decode/encode model: per-kind hooks (UnmarshalText / MarshalText of text kinds, duration and ID parsing) are assumed to round-trip; the "
         "generator writes every text kind of every built-in configuration from a value table (a missing table is a violation) so the round trip is searched, not proved",
         "`omitempty`: a written zero value is left out of the effective configuration; the zero test (reflect.Value.IsZero on the typed configuration) is an "
